@@ -20,12 +20,12 @@ REACH = ["predict_draw", "phi_major_inverse", "phi_major"]
 
 def floors(tier):
     q = tier == "quick"
-    return {"range": 10000 if q else 200000, "permutation": 10000 if q else 200000, "two-team-gap": 15000 if q else 300000,
-            "equalise": 6000 if q else 120000}
+    return {"range": 10000 if q else 1600000, "permutation": 10000 if q else 1600000, "two-team-gap": 15000 if q else 2400000,
+            "equalise": 6000 if q else 960000}
 
 
 def generate(ctx):
-    n = ctx.budget(16000, 300000)
+    n = ctx.budget(16000, 2400000)
     for _ in range(n):
         r = ctx.rng.random()
         if r < 0.1:
